@@ -29,12 +29,11 @@ theorem fmtNameBody_length_ge (n : Bytes) : n.length ≤ (fmtNameBody n).length 
   | cons c cs ih => simp only [fmtNameBody]; split <;> simp <;> omega
 
 theorem nameBody_rt (n : Bytes) (hn : AllBytes n) (rest : Bytes) (hrest : NameEnd rest) :
-    ∀ fuel len, fuel ≥ (fmtNameBody n).length + 1 → len + n.length < Gen.scanner_maxNameBytes + 1 →
-      (rest = [] ∨ len + n.length < Gen.scanner_maxNameBytes) →
+    ∀ fuel len, fuel ≥ (fmtNameBody n).length + 1 → len + n.length ≤ Gen.scanner_maxNameBytes →
       readNameBody fuel len (fmtNameBody n ++ rest) = .ok (n, rest) := by
   induction n with
   | nil =>
-    intro fuel len hf hl hl'
+    intro fuel len hf _
     cases fuel with
     | zero => simp [fmtNameBody] at hf
     | succ f =>
@@ -42,13 +41,10 @@ theorem nameBody_rt (n : Bytes) (hn : AllBytes n) (rest : Bytes) (hrest : NameEn
       | nil => simp [fmtNameBody, readNameBody]
       | cons d ds =>
         obtain ⟨h1, h2⟩ := hrest
-        have : ¬ (len ≥ Gen.scanner_maxNameBytes) := by
-          rcases hl' with h | h
-          · cases h
-          · simp at h; omega
-        simp [fmtNameBody, readNameBody, h1, h2, this]
+        have h3 : ¬ d = 35 := by simpa using h2
+        simp [fmtNameBody, readNameBody, h1, h3]
   | cons c cs ih =>
-    intro fuel len hf hl hl'
+    intro fuel len hf hl
     have hc : c < 256 := by simp [AllBytes] at hn; exact hn.1
     have hcs : AllBytes cs := by simp [AllBytes] at hn ⊢; exact hn.2
     have hlen : ¬ (len ≥ Gen.scanner_maxNameBytes) := by simp at hl; omega
@@ -58,25 +54,22 @@ theorem nameBody_rt (n : Bytes) (hn : AllBytes n) (rest : Bytes) (hrest : NameEn
       by_cases he : nameNeedsEsc c = true
       · obtain ⟨h1, h2, h3⟩ := byte_esc c hc he
         have := ih hcs f (len + 1) (by simp [fmtNameBody, he] at hf; omega) (by simp at hl ⊢; omega)
-          (by rcases hl' with h | h; exact .inl h; right; simp at h ⊢; omega)
         simp [fmtNameBody, he, readNameBody, h1, h2, this, h3, hlen]
       · have he' : nameNeedsEsc c = false := by simpa using he
         obtain ⟨h1, h2⟩ := byte_plain c hc he'
         have := ih hcs f (len + 1) (by simp [fmtNameBody, he'] at hf; omega) (by simp at hl ⊢; omega)
-          (by rcases hl' with h | h; exact .inl h; right; simp at h ⊢; omega)
         simp [fmtNameBody, he', readNameBody, h1, h2, this, hlen]
 
-/-- **Name round trip.**  For every byte string `n` shorter than `maxNameBytes` and every
+/-- **Name round trip.**  For every byte string `n` of at most `maxNameBytes` bytes and every
 continuation `rest` that ends the token, reading the formatted name returns `n` and stops
 exactly before `rest`. -/
-theorem name_rt (n : Bytes) (hn : AllBytes n) (hlen : n.length < Gen.scanner_maxNameBytes)
+theorem name_rt (n : Bytes) (hn : AllBytes n) (hlen : n.length ≤ Gen.scanner_maxNameBytes)
     (rest : Bytes) (hrest : NameEnd rest) :
     readName (fmtName n ++ rest) = .ok (n, rest) := by
   simp only [fmtName, readName, List.cons_append]
   apply nameBody_rt n hn rest hrest
   · simp
   · omega
-  · right; omega
 
 /-- the bytes written for a name after the slash are regular and `#` occurs only as an escape
     introducer followed by two hex digits (so the writer never emits a delimiter inside a name) -/
